@@ -39,6 +39,8 @@ def replay(path, verbose=True):
     except core.HarnessError:
         raise
     except Exception as e:
+        if core.exception_origin(e.__traceback__) != 'repo':
+            raise          # the harness itself failed in concrete mode: replay error, not a verdict
         detail = 'real code raised %s: %s' % (type(e).__name__, e)
         if verbose:
             print(detail)
